@@ -72,7 +72,8 @@ class Ctx:
         d = os.path.join(VERIF, ".work", "_mod")
         os.makedirs(d, exist_ok=True)
         tag = hashlib.sha1(self.repo.encode()).hexdigest()[:8]
-        mf = os.path.join(d, "go-%s.mod" % tag)
+        # one modfile per property: `go build -modfile` rewrites it, and checks may run concurrently
+        mf = os.path.join(d, "go-%s-%s.mod" % (tag, self.pid))
         src = open(os.path.join(HARNESS, "go.mod.in")).read().replace("@REPO@", self.repo)
         if not os.path.exists(mf) or open(mf).read() != src:
             open(mf, "w").write(src)
